@@ -775,10 +775,17 @@ func (vm *vm) popTryFrame() {
 }
 
 func (vm *vm) restoreStacks(iterLen, refLen uint32) (ex *Exception) {
+	return vm.unwindStacks(iterLen, refLen, true)
+}
+
+// unwindStacks cuts the iterator and reference stacks back to the given heights. The iterators that
+// are dropped get closed (their return() is called) unless closeIters is false: an uncatchable error
+// (interrupt, stack overflow) must not run any script on its way out.
+func (vm *vm) unwindStacks(iterLen, refLen uint32, closeIters bool) (ex *Exception) {
 	// Restore other stacks
 	iterTail := vm.iterStack[iterLen:]
 	for i := len(iterTail) - 1; i >= 0; i-- {
-		if iter := iterTail[i].iter; iter != nil {
+		if iter := iterTail[i].iter; iter != nil && closeIters {
 			ex1 := vm.try(func() {
 				iter.returnIter()
 			})
@@ -815,7 +822,7 @@ func (vm *vm) handleThrow(arg interface{}) *Exception {
 		vm.sp = int(tf.sp)
 		vm.stash = tf.stash
 		vm.privEnv = tf.privEnv
-		_ = vm.restoreStacks(tf.iterLen, tf.refLen)
+		_ = vm.unwindStacks(tf.iterLen, tf.refLen, ex != nil)
 
 		if tf.catchPos == tryPanicMarker {
 			break
